@@ -117,6 +117,8 @@ Definition leaf_to_doc (l : leafty) : leafval l -> doc :=
   | LInt => DInt
   | LStr => DStr
   | LVecInt => fun v => DArr 0 (map DInt v)
+  | LAttrInt => DInt
+  | LAttrStr => DStr
   end.
 
 Fixpoint f_to_doc (t : fty) {struct t} : fval t -> doc :=
@@ -253,6 +255,17 @@ Definition fields_deep : fields :=
   fl "list" (FVecObj fields_nested) [VMinSize 1 None]
  (fl "k" (FLeaf LInt) [VRequired None] FNil).
 
+(* XML only: members serialized with AttributeValue; the attribute x and the child element x share the path .../x *)
+Definition fields_attr : fields :=
+  fl "id" (FLeaf LAttrInt) [VRequired None; VRange 1 5 None]
+ (fl "name" (FLeaf LAttrStr) [VMinSize 2 None; VMaxSize 4 None]
+ (fl "x" (FLeaf LInt) [VRequired None]
+ (fl "x" (FLeaf LAttrInt) [VRange 0 9 (msg "attr x")] FNil))).
+
+Definition fields_attrlist : fields :=
+  fl "list" (FVecObj fields_attr) [VMinSize 1 None]
+ (fl "k" (FLeaf LAttrInt) [VRequired None] FNil).
+
 Definition class_catalogue : list fty :=
   [ FObj fields_flat;        (* 0 *)
     FObj fields_multi;       (* 1 *)
@@ -263,4 +276,6 @@ Definition class_catalogue : list fty :=
     FObj fields_dup;         (* 6 *)
     FObj fields_many;        (* 7 *)
     FVecObj fields_flat;     (* 8  root = std::vector<Flat> *)
-    FObj fields_deep ].      (* 9 *)
+    FObj fields_deep;        (* 9 *)
+    FObj fields_attr;        (* 10 XML only: attributes *)
+    FObj fields_attrlist ].  (* 11 XML only: attributes inside array items *)
